@@ -134,11 +134,7 @@ Example C30_witness_limits : forall P,
   run_chia P 100 (N.ldiff w GC_DISABLE_OP_BITS) prog (Atom []) 0 = Ok (9550, v) /\
   run_runtime P 100 BIT_LIMITS prog (Atom []) 0 = Err (InvalidOpArg 0) /\
   run_chia P 100 BIT_LIMITS prog (Atom []) 0 = Err (InvalidOpArg 0).
-Proof.
-  intros P w q prog. split; [right; reflexivity|]. split; [reflexivity|]. split; [vm_compute; discriminate|].
-  eexists. split; [vm_compute; reflexivity|]. split; [vm_compute; reflexivity|].
-  split; [vm_compute; reflexivity|]. split; vm_compute; reflexivity.
-Qed.
+Proof. exact witness_limits. Qed.
 
 (* non-vacuity of C30_run_minus_gc in the class C30_run_all leaves out: DISABLE_OP without
    NEW_COST_MODEL, (/ (q . 0x01^2049) (q . 3)) passes the barrier and fails alike on both *)
@@ -148,10 +144,7 @@ Example C30_witness_disable_op : forall P,
   run_program (runtime_dialect P F) 100 div_2049 (Atom []) 0 = Err (InvalidOpArg 0) /\
   run_program (chia_dialect P (minus_gc F)) 100 div_2049 (Atom []) 0 = Err (InvalidOpArg 0) /\
   run_program (common_gc_dialect P F) 100 modpow_2_77 (Atom []) 0 = Err Unsupported.
-Proof.
-  intros P F. split; [vm_compute; reflexivity|]. split; [vm_compute; reflexivity|].
-  split; vm_compute; reflexivity.
-Qed.
+Proof. exact witness_disable_op. Qed.
 
 Print Assumptions C30_tables.
 Print Assumptions C30_unknown_to_both.
